@@ -24,6 +24,7 @@ CONSTANTS N,           \* instances 1..N; nick identifiers ordered like the numb
           Checkpoint,  \* "COLD" | "JOIN": initial states
           FixF1,       \* TRUE: CONCILIATION -> ELECTION is in the transition table (fix F1)
           FixF5,       \* TRUE: on_instance_failure ignores instances that are not in an active state (fix F5)
+          Mismatch,    \* instances configured with other strategies than the rest (handshake -> INCONSISTENT)
           HoldDist,    \* TRUE: the Starter of the Master is in progress when DISTRIBUTION is entered (until Release)
           MaxRound     \* bound on the number of tick rounds (state constraint)
 
@@ -419,7 +420,9 @@ ProxyRemote(i, j) ==
                \* SupervisorProxy.check_instance (coarse: the RPCs of one handshake are one step)
                IF ~Reach(i, j)
                THEN /\ Commit(Failure(Local(i), j), qb) /\ act' = <<"CheckFail", i, j>>
-               ELSE LET auth == IF inst[j][i] = "ISOLATED" THEN "NOT_AUTHORIZED" ELSE "AUTHORIZED"
+               ELSE LET auth == IF inst[j][i] = "ISOLATED" THEN "NOT_AUTHORIZED"
+                                ELSE IF (i \in Mismatch) # (j \in Mismatch) THEN "INCONSISTENT"
+                                ELSE "AUTHORIZED"
                         L == Local(i)
                         o1 == <<<<"NOT", j, "IDENT", 0>>>>
                         o2 == IF auth = "AUTHORIZED"
@@ -673,7 +676,7 @@ LabelsC01 == {"C01.ElectionRule", "C01.MasterOnlyAuto"}
 LabelsC02 == {"C02.OnGraph", "C02.NeedsMaster", "C02.SlaveAfterMaster"}
 LabelsC07 == {"C07.InstanceGraph", "C07.LocalIsolated", "C07.Accuracy", "C07.Fence", "C07.Completeness",
               "C07.ViewConsistent"}
-LabelsC13 == {"C13.Airtight", "C13.NoTraffic"}
+LabelsC13 == {"C13.Airtight", "C13.NoTraffic", "C13.Reciprocal"}
 LabelsC16 == {"C16.NoInternalError"}
 StepsC01 == [][P!StepFailures(g, Rec) \cap LabelsC01 = {}]_vars
 StepsC02 == [][P!StepFailures(g, Rec) \cap LabelsC02 = {}]_vars
